@@ -371,7 +371,8 @@ class BlockCode(BlockToken):
 
     @staticmethod
     def start(line):
-        return line.replace('\t', '    ', 1).startswith('    ')
+        # an indented code block cannot begin with a blank line
+        return line.strip() != '' and line.replace('\t', '    ', 1).startswith('    ')
 
     @classmethod
     def read(cls, lines):
